@@ -62,6 +62,38 @@ class ObjV:
         return f"{self.cls}({', '.join(f'{k}={v!r}' for k, v in sorted(self.fields.items()))})"
 
 
+class VecV:
+    """a short numeric array given element by element (np.array([a, b])): arithmetic is element-wise"""
+
+    def __init__(self, items):
+        self.items = list(items)
+
+    def key(self):
+        return ("vec", tuple(vkey(i) for i in self.items))
+
+    def __eq__(self, o):
+        return isinstance(o, VecV) and self.key() == o.key()
+
+    def __hash__(self):
+        return hash(self.key())
+
+    def __repr__(self):
+        return "vec[" + ", ".join(map(repr, self.items)) + "]"
+
+    def map(self, f):
+        return VecV([f(i) for i in self.items])
+
+
+def vec_binop(fn, l, r):
+    if isinstance(l, VecV) and isinstance(r, VecV):
+        if len(l.items) != len(r.items):
+            return None
+        return VecV([fn(a, b) for a, b in zip(l.items, r.items)])
+    if isinstance(l, VecV):
+        return VecV([fn(a, r) for a in l.items])
+    return VecV([fn(l, b) for b in r.items])
+
+
 class FuncV:
     def __init__(self, fi: FuncInfo, env=None, bound_self=None):
         self.fi = fi
@@ -225,6 +257,7 @@ class Interp:
         self.final_env = None
         self.loop_envs = {}          # loop node -> (env at head, env at end of body)
         self.snapshots: dict = {}    # depth-0 Assign stmt -> env just before it
+        self.none_arith: list = []   # (fi, node, operand): arithmetic on a value known to be None
         self.bad_attrs: list = []    # (fi, node, base value, attr): ndarray-kinded receiver without that attribute
 
     # ------------------------------------------------------------------ entry
@@ -235,6 +268,16 @@ class Interp:
         outs = self._exec_function(fi, st, depth=0)
         self.outcomes = outs
         return outs
+
+    def call_funcv(self, fv, args, kwargs=None):
+        """evaluate a function value (lambda / nested def with its closure) on abstract arguments"""
+        st = State({}, Facts(), [])
+        rec = CallRec(fv.fi.node, PKG + "." + fv.fi.qualname, list(args), kwargs or {}, [], fv.fi, 0, st.facts)
+        self._stack.append((fv.fi.parent or fv.fi, []))
+        try:
+            return self._call_func(fv.fi, list(args), kwargs or {}, st, fv.fi.parent or fv.fi, 0, fv.fi.node, rec, closure=fv.env, bound_self=fv.bound_self)
+        finally:
+            self._stack.pop()
 
     def _seed_facts(self, st):
         for name, a in self.assumptions.items():
@@ -294,7 +337,10 @@ class Interp:
             st.env[a.vararg.arg] = TupleV(argv[len(names):]) if not top else Form.sym("*" + a.vararg.arg)
         if a.kwarg:
             extra = [(Const(k), v) for k, v in kwargs.items() if k not in used_kw and k not in names]
-            st.env[a.kwarg.arg] = DictV(extra) if not top else Form.sym("**" + a.kwarg.arg)
+            if top and a.kwarg.arg in self.param_values:
+                st.env[a.kwarg.arg] = self.param_values[a.kwarg.arg]
+            else:
+                st.env[a.kwarg.arg] = DictV(extra) if not top else Form.sym("**" + a.kwarg.arg)
 
     def _top_param(self, fi, nm, default):
         if nm in self.param_values:
@@ -448,7 +494,7 @@ class Interp:
             self.assign(t.value, v, st, fi, depth, stmt)
 
     def _unpack(self, v, n):
-        if isinstance(v, TupleV) and len(v.items) == n:
+        if isinstance(v, (TupleV, VecV)) and len(v.items) == n:
             return v.items
         if isinstance(v, Form):
             a = v.single_atom()
@@ -989,7 +1035,12 @@ class Interp:
                     k = v.key()
                     short = frozenset(c.split(".")[-1] for c in classes)
                     if pol:
-                        st.facts.inst[k] = short
+                        prev = st.facts.inst.get(k)
+                        if prev:
+                            keep = frozenset(c for c in prev if any(x in self._mro_names(c.split(".")[-1]) for x in short))
+                            st.facts.inst[k] = keep or prev
+                        else:
+                            st.facts.inst[k] = short
                         st.facts.none[k] = False
                     else:
                         st.facts.notinst[k] = st.facts.notinst.get(k, frozenset()) | short
@@ -1141,6 +1192,8 @@ class Interp:
     def e_UnaryOp(self, n, st, fi, depth):
         v = self.eval(n.operand, st, fi, depth)
         if isinstance(n.op, ast.USub):
+            if isinstance(v, VecV):
+                return v.map(lambda x: -x if isinstance(x, Form) else mk_fn("neg", [x]))
             if isinstance(v, Form):
                 return -v
             return mk_fn("neg", [as_value(v)])
@@ -1188,6 +1241,14 @@ class Interp:
             return Const(l.v * int(r.rational()))
         if t is ast.Mult and isinstance(r, Const) and isinstance(r.v, str) and isinstance(l, Form) and l.rational() is not None:
             return Const(r.v * int(l.rational()))
+        if isinstance(l, VecV) or isinstance(r, VecV):
+            if all(isinstance(x, (VecV, Form)) for x in (l, r)):
+                res = vec_binop(lambda a, b: self.binop(op, a, b, st, fi, depth, node), l, r)
+                if res is not None:
+                    return res
+        for opnd in (l, r):
+            if (isinstance(opnd, Const) and opnd.v is None) or (isinstance(opnd, Form) and st.facts.none.get(opnd.key()) is True):
+                self.none_arith.append((fi, node, opnd))
         lf, rf = num_form(l), num_form(r)
         if lf is not None and rf is not None:
             if t is ast.Add:
@@ -1327,6 +1388,10 @@ class Interp:
                 return v
             # symbolic key: value for each key
             return Form.atom(("idx", base, as_value(idx)))
+        if isinstance(base, VecV) and isinstance(idx, Form) and idx.rational() is not None and idx.rational().denominator == 1:
+            i = int(idx.rational())
+            if -len(base.items) <= i < len(base.items):
+                return base.items[i]
         if isinstance(base, TupleV) and isinstance(idx, Form) and idx.rational() is not None and idx.rational().denominator == 1:
             i = int(idx.rational())
             if -len(base.items) <= i < len(base.items):
@@ -1480,8 +1545,16 @@ class Interp:
                 return mk_fn(name, [args[0]])
             v = args[0]
             if isinstance(v, TupleV) and name.startswith("numpy."):
-                return mk_fn("array", [v] + []) if not _all_forms(v) else Form.atom(("fn", "array", (v,), ()))
+                if v.items and len(v.items) <= 8 and all(isinstance(i, Form) for i in v.items):
+                    return VecV(v.items)
+                return mk_fn("array", [v])
             return v
+        if args and isinstance(args[0], VecV) and len(args) == 1 and not kwargs and (name.startswith("numpy.") or name.startswith("scipy.special.") or name.startswith("math.")) \
+                and name.split(".")[-1] in _ELEMENTWISE:
+            sub = []
+            for item in args[0].items:
+                sub.append(self._dispatch_call(n, name, [item], {}, st, fi, depth, rec))
+            return VecV(sub)
         short = _FN_NAMES.get(name)
         if short is None:
             if name.startswith("numpy.") and name.count(".") == 1:
@@ -1811,6 +1884,8 @@ class _ModuleScope:
 
 
 _MISSING = object()
+_ELEMENTWISE = {"sqrt", "abs", "absolute", "exp", "log", "log10", "log2", "cos", "sin", "tan", "erfc", "erf", "conj", "real", "imag",
+                "square", "negative", "array", "asarray", "float64"}
 _BUILTIN_TYPES = {"int", "float", "complex", "str", "bool", "list", "tuple", "dict", "set", "bytes", "object", "type",
                   "Exception", "ValueError", "TypeError"}
 _BUILTINS = {"len", "int", "isinstance", "type", "getattr", "super", "str", "min", "max", "list", "tuple", "zip", "range",
@@ -1886,6 +1961,8 @@ def elementwise_items(v: Form, n):
 
 
 def iter_element(it):
+    if isinstance(it, VecV):
+        it = TupleV(it.items, "list")
     if isinstance(it, TupleV) and it.items and all(vkey(i) == vkey(it.items[0]) for i in it.items):
         return it.items[0]
     if isinstance(it, Form):
